@@ -20,12 +20,19 @@ SupExpr(e, ctx) ==
     [] e.k = "bin" -> SupExpr(e.l, ctx) /\ SupExpr(e.r, ctx)
     [] OTHER -> FALSE                        \* nary, bad
 
+\* a comparison must mention a fluent (comparisons of constants are outside the fragment)
+RECURSIVE HasFluent(_)
+HasFluent(e) ==
+  CASE e.k = "fl"  -> TRUE
+    [] e.k = "bin" -> HasFluent(e.l) \/ HasFluent(e.r)
+    [] OTHER -> FALSE
+
 SupLit(f, ctx) ==
   \/ f.k = "atom" /\ f.p \in ctx.preds /\ NoRepeat(f.a)
   \/ f.k = "not" /\ f.f.k = "atom" /\ f.f.p \in ctx.preds /\ NoRepeat(f.f.a)
   \/ f.k = "eq"
   \/ f.k = "not" /\ f.f.k = "eq"
-  \/ f.k = "cmp" /\ SupExpr(f.l, ctx) /\ SupExpr(f.r, ctx)
+  \/ f.k = "cmp" /\ SupExpr(f.l, ctx) /\ SupExpr(f.r, ctx) /\ (HasFluent(f.l) \/ HasFluent(f.r))
 
 \* members of an and/or: literals, nested and/or, forall whose body is and/or
 RECURSIVE SupMember(_, _, _)
